@@ -196,6 +196,25 @@ func (a *FuncAction) Exec(ctx context.Context, bs Bindings, props StepProps) (*E
 	return exe, err
 }
 
+// permanentBindings returns the permanent bindings in the given
+// bindings (or nil if there aren't any or Exp_PermanentBindings is
+// off).
+func permanentBindings(bs Bindings) Bindings {
+	if !Exp_PermanentBindings {
+		return nil
+	}
+	var permanent Bindings
+	for p, v := range bs {
+		if isPermanent(p) {
+			if permanent == nil {
+				permanent = make(Bindings)
+			}
+			permanent[p] = v
+		}
+	}
+	return permanent
+}
+
 // ActionSource can be compiled to an Action.
 type ActionSource struct {
 	Interpreter string      `json:"interpreter,omitempty" yaml:",omitempty"`
